@@ -149,19 +149,9 @@ def run(repo, rep):
                 n += 1
                 rep.fail('C19.c', '%s:env:%s' % (f.qualname, src(c)), '%s:%d' % (f.module.relpath, c.lineno),
                          '%s reads %s inside the printing pipeline' % (f.key, src(c)))
-    # sort keys: the wrapper used for sorting compares values first, falls back without identity
-    srt = m.classes.get(__import__('engine.roles', fromlist=['x']).name(repo, 'sortable_cls'))
-    if srt is not None:
-        lt = srt.methods.get('__lt__')
-        n += 1
-        ok = False
-        if lt is not None:
-            tries = [t for t in ast.walk(lt.node) if isinstance(t, ast.Try)]
-            ok = len(tries) == 1 and any(isinstance(r, ast.Return) and src(r.value) == 'self.value < other.value' for r in tries[0].body) \
-                and all(src(h.type) == 'TypeError' for h in tries[0].handlers)
-        rep.check(ok, 'C19.c', '_AlwaysSortable.__lt__:value-order-first', srt.where,
-                  'keys compared by value; fallback only on TypeError',
-                  '_AlwaysSortable.__lt__ no longer compares the wrapped values first with a TypeError-only fallback', nontrivial=True)
+    # sort keys: comparable keys by their own order, the others by kind - never by identity (interpreted on pairs of constants)
+    from .common import report_sortkey
+    n += report_sortkey(repo, rep, 'C19.c')
     rep.floor('C19.c', n, 4)
 
     # ---------------------------------------------------------------- C19.d
